@@ -1,0 +1,262 @@
+// Copyright 2017 Pilosa Corp.
+//
+// Licensed under the Apache License, Version 2.0 (the "License");
+// you may not use this file except in compliance with the License.
+// You may obtain a copy of the License at
+//
+//     http://www.apache.org/licenses/LICENSE-2.0
+//
+// Unless required by applicable law or agreed to in writing, software
+// distributed under the License is distributed on an "AS IS" BASIS,
+// WITHOUT WARRANTIES OR CONDITIONS OF ANY KIND, either express or implied.
+// See the License for the specific language governing permissions and
+// limitations under the License.
+
+//go:build verif
+// +build verif
+
+package pilosa
+
+import (
+	"context"
+	"sort"
+
+	"github.com/pilosa/pilosa/logger"
+	"github.com/pilosa/pilosa/stats"
+)
+
+// Export shims for the verification harness (/verif, property C11). Add-only, tag-guarded.
+
+// VerifC11Frag is a real fragment living in a scratch file.
+type VerifC11Frag struct{ f *fragment }
+
+// VerifC11OpenFragment opens (creating if needed) a fragment file at path.
+func VerifC11OpenFragment(path, index, field, view string, shard uint64) (*VerifC11Frag, error) {
+	f := newFragment(path, index, field, view, shard, 0)
+	f.CacheType = CacheTypeNone
+	f.RowAttrStore = nopStore
+	f.snapshotQueue = newSnapshotQueue(1, 1, nil)
+	if err := f.Open(); err != nil {
+		return nil, err
+	}
+	return &VerifC11Frag{f: f}, nil
+}
+
+// Close closes the fragment and its snapshot queue.
+func (v *VerifC11Frag) Close() error {
+	err := v.f.Close()
+	close(v.f.snapshotQueue)
+	return err
+}
+
+// SetBits sets (row, shard-relative column) pairs.
+func (v *VerifC11Frag) SetBits(rows, cols []uint64) error {
+	for i := range rows {
+		if _, err := v.f.setBit(rows[i], v.f.shard*ShardWidth+cols[i]%ShardWidth); err != nil {
+			return err
+		}
+	}
+	return nil
+}
+
+// Pairs returns every bit of the fragment as (row, shard-relative column), ascending.
+func (v *VerifC11Frag) Pairs() (rows, cols []uint64) { return verifC11Pairs(v.f) }
+
+func verifC11Pairs(f *fragment) (rows, cols []uint64) {
+	f.mu.Lock()
+	defer f.mu.Unlock()
+	itr := f.storage.Iterator()
+	itr.Seek(0)
+	for p, eof := itr.Next(); !eof; p, eof = itr.Next() {
+		rows = append(rows, p/ShardWidth)
+		cols = append(cols, p%ShardWidth)
+	}
+	return rows, cols
+}
+
+// BlockData exposes fragment.blockData.
+func (v *VerifC11Frag) BlockData(id int) (rows, cols []uint64) { return v.f.blockData(id) }
+
+// MergeBlock calls fragment.mergeBlock with the given remote pair sets and returns the per-remote
+// set and clear diffs.
+func (v *VerifC11Frag) MergeBlock(id int, rows, cols [][]uint64) (setRows, setCols, clearRows, clearCols [][]uint64, err error) {
+	data := make([]pairSet, len(rows))
+	for i := range rows {
+		data[i] = pairSet{rowIDs: rows[i], columnIDs: cols[i]}
+	}
+	sets, clears, err := v.f.mergeBlock(id, data)
+	if err != nil {
+		return nil, nil, nil, nil, err
+	}
+	for i := range sets {
+		setRows = append(setRows, sets[i].rowIDs)
+		setCols = append(setCols, sets[i].columnIDs)
+		clearRows = append(clearRows, clears[i].rowIDs)
+		clearCols = append(clearCols, clears[i].columnIDs)
+	}
+	return setRows, setCols, clearRows, clearCols, nil
+}
+
+// ApplyDiff applies one diff the way a remote replica does when it receives syncBlock's request:
+// bitsToRoaringData on the sender, fragment.importRoaring on the receiver.
+func (v *VerifC11Frag) ApplyDiff(rows, cols []uint64, clear bool) error {
+	if len(cols) == 0 {
+		return nil
+	}
+	data, err := bitsToRoaringData(pairSet{rowIDs: rows, columnIDs: cols})
+	if err != nil {
+		return err
+	}
+	return v.f.importRoaring(context.Background(), data, clear)
+}
+
+// Blocks returns the block checksums; with fresh the checksum cache is dropped first (cache
+// freshness is property C10, not C11).
+func (v *VerifC11Frag) Blocks(fresh bool) []FragmentBlock {
+	if fresh {
+		v.f.InvalidateChecksums()
+	}
+	return v.f.Blocks()
+}
+
+// VerifC11CleanViewName exposes cleanViewName.
+func VerifC11CleanViewName(v string) string { return cleanViewName(v) }
+
+// VerifC11Node is one in-process replica: a holder, a cluster view and an API, no sockets of its
+// own (the harness serves the API through the real http handler).
+type VerifC11Node struct {
+	Holder  *Holder
+	API     *API
+	Node    *Node
+	cluster *cluster
+}
+
+// VerifC11NewNode opens a holder at dir and builds the API/cluster objects of a node.
+func VerifC11NewNode(dir, id string, uri URI) (*VerifC11Node, error) {
+	h := NewHolder()
+	h.Path = dir
+	if err := h.Open(); err != nil {
+		return nil, err
+	}
+	node := &Node{ID: id, URI: uri, State: nodeStateReady}
+	c := newCluster()
+	c.Node = node
+	c.holder = h
+	c.Path = dir
+	c.state = ClusterStateNormal
+	srv := &Server{nodeID: id, cluster: c, holder: h, logger: logger.NopLogger, defaultClient: nopInternalClient{}}
+	api, err := NewAPI(func(a *API) error {
+		a.server = srv
+		a.holder = h
+		a.cluster = c
+		return nil
+	})
+	if err != nil {
+		return nil, err
+	}
+	return &VerifC11Node{Holder: h, API: api, Node: node, cluster: c}, nil
+}
+
+// VerifC11Join makes every node see the same node list (sorted by id), every node a replica of
+// every shard, and lets the nodes talk through client.
+func VerifC11Join(nodes []*VerifC11Node, client InternalClient) {
+	all := make([]*Node, len(nodes))
+	for i, n := range nodes {
+		all[i] = n.Node
+	}
+	sort.Slice(all, func(i, j int) bool { return all[i].ID < all[j].ID })
+	for _, n := range nodes {
+		n.cluster.nodes = append([]*Node(nil), all...)
+		n.cluster.ReplicaN = len(nodes)
+		n.cluster.InternalClient = client
+		n.cluster.state = ClusterStateNormal
+	}
+}
+
+// Close closes the API workers and the holder.
+func (n *VerifC11Node) Close() error {
+	_ = n.API.Close()
+	return n.Holder.Close()
+}
+
+// SetBits writes (row, shard-relative column) pairs straight into one view's fragment of this
+// replica only (creating view and fragment), bypassing replication: this is how divergence is made.
+func (n *VerifC11Node) SetBits(index, field, view string, shard uint64, rows, cols []uint64) error {
+	f := n.Holder.Field(index, field)
+	if f == nil {
+		return ErrFieldNotFound
+	}
+	v, err := f.createViewIfNotExists(view)
+	if err != nil {
+		return err
+	}
+	frag, err := v.CreateFragmentIfNotExists(shard)
+	if err != nil {
+		return err
+	}
+	for i := range rows {
+		if _, err := frag.setBit(rows[i], shard*ShardWidth+cols[i]%ShardWidth); err != nil {
+			return err
+		}
+	}
+	return nil
+}
+
+// Pairs returns the bits of one fragment (exists=false when the view or fragment is missing).
+func (n *VerifC11Node) Pairs(index, field, view string, shard uint64) (rows, cols []uint64, exists bool) {
+	frag := n.Holder.fragment(index, field, view, shard)
+	if frag == nil {
+		return nil, nil, false
+	}
+	rows, cols = verifC11Pairs(frag)
+	return rows, cols, true
+}
+
+// Views lists the view names of a field, sorted.
+func (n *VerifC11Node) Views(index, field string) []string {
+	f := n.Holder.Field(index, field)
+	if f == nil {
+		return nil
+	}
+	var names []string
+	for _, v := range f.views() {
+		names = append(names, v.name)
+	}
+	sort.Strings(names)
+	return names
+}
+
+// Blocks returns the block list of one fragment (nil when missing).
+func (n *VerifC11Node) Blocks(index, field, view string, shard uint64, fresh bool) []FragmentBlock {
+	frag := n.Holder.fragment(index, field, view, shard)
+	if frag == nil {
+		return nil
+	}
+	if fresh {
+		frag.InvalidateChecksums()
+	}
+	return frag.Blocks()
+}
+
+// SyncFragment runs holderSyncer.syncFragment (-> fragmentSyncer.syncFragment -> syncBlock) with this
+// node as the local replica.
+func (n *VerifC11Node) SyncFragment(index, field, view string, shard uint64) error {
+	s := n.syncer()
+	return s.syncFragment(index, field, view, shard)
+}
+
+// SyncHolder runs one complete anti-entropy pass of this node.
+func (n *VerifC11Node) SyncHolder() error {
+	s := n.syncer()
+	return s.SyncHolder()
+}
+
+func (n *VerifC11Node) syncer() *holderSyncer {
+	return &holderSyncer{
+		Holder:  n.Holder,
+		Node:    n.Node,
+		Cluster: n.cluster,
+		Closing: make(chan struct{}),
+		Stats:   stats.NopStatsClient,
+	}
+}
